@@ -1,4 +1,6 @@
 """C11 — task filters (TaskFilterTrackProcessor) keep exactly the selected tasks and leave a runnable track."""
+import json
+
 from harness.framework import Stream
 from harness import c02
 
@@ -25,7 +27,7 @@ class Cfg:
 # task names that contain glob / regular-expression metacharacters, next to names they would match as a pattern (a name filter is
 # string equality)
 ODD_NAMES = ["query[1]", "query1", "count(*)", "count(distinct)", "index-*", "index-append", "p?", "pq", "a.b", "aXb", "a+b", "aab",
-             "x|y", "x", "^t$", "t", "bulk index", "Bulk"]
+             "x|y", "x", "^t$", "t", "bulk index", "Bulk", "o'reilly-term", 'say-"hi"', "it's"]
 
 
 def gen_case(rng):
@@ -81,6 +83,9 @@ def gen_case(rng):
         rng.shuffle(filters)
     # half of the cases go through the track specification reader (JSON spec -> track objects) instead of building objects directly
     case = {"schedule": sched, "exclude": exclude, "filters": filters, "via_spec": rng.random() < 0.5}
+    # how the list reaches the processor: as a list (configuration) or through the command-line splitter
+    if filters and not any("," in f or f.strip() != f or f == "" for f in filters) and not filters[0].startswith("["):
+        case["via_cli"] = rng.choice([None, "csv", "csv", "spaced", "json"])
     if rng.random() < 0.35:
         # a second challenge sharing tasks (same name / operation / parameters) that are tagged or typed differently there
         import copy
@@ -199,7 +204,18 @@ def run(ctx, case):
 
     trk, chs = build2(case)
     befores = [{t.iterations: props(t) for e in c.schedule for t in e} for c in chs]
-    cfg = Cfg(None, case["filters"]) if case["exclude"] else Cfg(case["filters"], None)
+    filters = case["filters"]
+    if case.get("via_cli") and filters:
+        # as on the command line: --include-tasks / --exclude-tasks take one comma-separated string (or a JSON array), turned into the
+        # list the processor reads by opts.csv_to_list (rally.py)
+        from esrally.utils import opts
+
+        cli = json.dumps(filters) if case["via_cli"] == "json" else ", ".join(filters) if case["via_cli"] == "spaced" else ",".join(filters)
+        parsed = opts.csv_to_list(cli)
+        if parsed != filters:
+            ctx.fail("cli:filter-list", f"the filter list given on the command line as {cli!r} is not read as its comma-separated entries", filters, parsed)
+        filters = parsed
+    cfg = Cfg(None, filters) if case["exclude"] else Cfg(filters, None)
     if not case["exclude"] and not case["filters"]:
         cfg = Cfg(None, None)
     failed = False
@@ -361,7 +377,7 @@ def run_race(ctx, case):
             reqs = {}
             for r in sim.request_log:
                 reqs[r["task"]] = reqs.get(r["task"], 0) + 1
-            want = {t["name"]: t["clients"] * t["iterations"] for _, ts in remaining for t in ts}
+            want = {t["name"]: t["clients"] * (t.get("iterations") or 1) for _, ts in remaining for t in ts}
             if reqs != want:
                 ctx.fail(cls + ":executed", "the driver did not execute exactly the remaining tasks (requests per task)", want, reqs)
         ctx.sig(["race", case["mode"], exclude, S == 0, S == len(sc["schedule"]), res], nontrivial=True)
